@@ -84,13 +84,38 @@ class _SimTemporaryDirectory:
         return False
 
 
+def _from_repo(sim, real):
+    """Dispatch on the caller: repository code gets the simulated version,
+    every other library the genuine one."""
+    def dispatch(*a, **kw):
+        caller = sys._getframe(1).f_globals.get("__name__", "")
+        if caller.startswith("neuroglancer_scripts"):
+            return sim(*a, **kw)
+        return real(*a, **kw)
+    return dispatch
+
+
 def install_names():
-    from neuroglancer_scripts import sharded_file_accessor as sfa
+    # The seam is the module-level names the repository looks up at call
+    # time.  A refactoring may stop using one of them: install tolerantly
+    # (an unused name is harmless) and fall back to the stdlib modules so
+    # that `import uuid; uuid.uuid4()` / `tempfile.TemporaryDirectory()`
+    # spellings are covered as well.
+    import tempfile
+    import uuid
+    try:
+        from neuroglancer_scripts import sharded_file_accessor as sfa
+    except ImportError:
+        sfa = None
     if "uuid4" not in _ORIG:
-        _ORIG["uuid4"] = sfa.uuid4
-        _ORIG["TemporaryDirectory"] = sfa.TemporaryDirectory
-    sfa.uuid4 = _uuid4
-    sfa.TemporaryDirectory = _SimTemporaryDirectory
+        _ORIG["uuid4"] = uuid.uuid4
+        _ORIG["TemporaryDirectory"] = tempfile.TemporaryDirectory
+    if sfa is not None:
+        sfa.uuid4 = _uuid4
+        sfa.TemporaryDirectory = _SimTemporaryDirectory
+    uuid.uuid4 = _from_repo(_uuid4, _ORIG["uuid4"])
+    tempfile.TemporaryDirectory = _from_repo(_SimTemporaryDirectory,
+                                             _ORIG["TemporaryDirectory"])
 
 
 class ProcResult:
